@@ -231,6 +231,30 @@ class CreateCheck:
                                         "alpha": alpha, "first": g["first"],
                                         "seed": seed, "listing": "native",
                                         "cli": scale == "R"}, **variant))
+        # several names for one file: equal contents as separate files and as
+        # hard links of one inode (same directory, across directories, all)
+        for cids in ([0, 0, 2], [0, 1, 0], [0, 1, 1], [0, 0, 0]):
+            for hl in (True, False):
+                for scale, B, P, alpha in (
+                        ("R", REAL_B, 32768, [1, 16385, 32768, 40000]),
+                        ("S", 2, 4, list(range(0, 10)))):
+                    vecs = []
+                    for s_ in alpha:
+                        for t_ in alpha:
+                            v = [t_, t_, t_]
+                            for i, c in enumerate(cids):
+                                if cids.count(c) > 1:
+                                    v[i] = s_
+                            if v not in vecs:
+                                vecs.append(v)
+                    step = 8 if scale == "R" else 50
+                    for i in range(0, len(vecs), step):
+                        gs.append({"kind": "vec", "scale": scale, "B": B,
+                                   "P": P, "shape": "D3",
+                                   "sizes_list": vecs[i:i + step],
+                                   "cids": cids, "hardlink": hl,
+                                   "seed": seed, "listing": "native",
+                                   "cli": scale == "R"})
         # R, the largest piece lengths the validator accepts, tiny files
         # (padding / zero-extension longer than 16 MiB)
         for P in ([1 << 25] if quick else [1 << 20, 1 << 24, 1 << 25]):
@@ -363,7 +387,8 @@ class CreateCheck:
         tree = dict(files)
         parent = world.fresh_dir()
         name = w.get("rootname") or world.ROOT_NAME
-        path = world.materialize(files, parent, name=name, shape=w["shape"])
+        path = world.materialize(files, parent, name=name, shape=w["shape"],
+                                 hardlink=w.get("hardlink", False))
         out = {}
         trans = 0
         tf.reset_process_state()
@@ -604,6 +629,10 @@ class CreateCheck:
                 w["cids"] = ["zero"] * len(sizes)
             if g.get("rootname"):
                 w["rootname"] = g["rootname"]
+            if g.get("cids"):
+                w["cids"] = g["cids"]
+            if g.get("hardlink"):
+                w["hardlink"] = True
             obs, trans = self.observe(w, seed, cli=g.get("cli", False),
                                       listing=g.get("listing", "native"))
             res.states += 1
